@@ -363,6 +363,7 @@ static void run_case(int k, const std::string & line)
       ScriptPacketIO * rpio = new ScriptPacketIO(&packets, 1400); DataIORef rpref(rpio);
       AbstractMessageIOGatewayRef sgw, rgw;
       uint32 minc = 0;
+      bool limited_in = false;   // the receiver was given an incoming-size limit: it may legitimately refuse a Message
       bool wsClientSends = (head[0] == "WC")||(head[0] == "WR"), wsT = true, wsF = false;
       StressTestParserProxyDataIO * sio = NULL;
       if (ws_mode)
@@ -376,6 +377,7 @@ static void run_case(int k, const std::string & line)
       {
          const int32 enc = MUSCLE_MESSAGE_ENCODING_DEFAULT + atoi(head.size()>1 ? head[1].c_str() : "0");
          const uint32 maxin = (head.size()>2) ? (uint32) strtoul(head[2].c_str(), NULL, 10) : MUSCLE_NO_LIMIT;
+         limited_in = (maxin != MUSCLE_NO_LIMIT);
          const uint32 maxcache = ((kind == 'P')&&(head.size()>3)&&(!head[3].empty())) ? (uint32) strtoul(head[3].c_str(), NULL, 10) : (1024*1024);
          MessageIOGateway * s = (kind == 'F') ? new MessageIOGateway(enc) : new TemplatingMessageIOGateway(maxcache, enc);
          MessageIOGateway * r = (kind == 'F') ? new MessageIOGateway(enc) : new TemplatingMessageIOGateway(maxcache, enc);
@@ -536,6 +538,13 @@ static void run_case(int k, const std::string & line)
             }
             o << ":" << pipe.q.size();
 
+            // ---- oracle: a receiver never declares the stream of its own peer broken ("nothing lost" includes the
+            // Messages that would follow: an unrecoverable error stops all further delivery)
+            if ((oracle_on)&&(!failed)&&(!limited_in)&&((r.IsError())||(rgw()->GetUnrecoverableErrorStatus().IsError())))
+            {
+               orc << k << " ORACLE FAIL receiver went into the unrecoverable-error state on the stream of its own peer (" << got.size() << " of " << sent.size() << " items delivered so far) after op#" << n << "\n";
+               failed = true;
+            }
             // ---- oracle: delivered is a prefix of queued
             if ((oracle_on)&&(!failed))
             {
